@@ -253,6 +253,36 @@ for comments in (False, True):
             kws = dict(v.py[3])
             return z3.BoolVal("comment_start_string" in kws and kws.get("rules") == VConst(("pattern",)))
         c.ensures("the-tokenizer-is-stored-on-this-tag-instance-only", post2)
+
+        def post3(r):
+            # configuring comment delimiters must not change which tag names a line of a liquid tag
+            # may start with: the line rule accepts `#` (the inline comment tag) and \w+ in both variants
+            import re as _re
+            rules = r.st.ghost.get("rules") or []
+            for n_, p_ in rules:
+                if name_of(n_) != "LIQUID_EXPR":
+                    continue
+                parts = []
+
+                def flat(t):
+                    t = z3.simplify(t) if z3.is_string_value(z3.simplify(t)) else t
+                    if z3.is_string_value(t):
+                        from pyvc.solve import _unescape
+                        parts.append(_unescape(t.as_string()))
+                    elif z3.is_app(t) and t.decl().kind() == z3.Z3_OP_SEQ_CONCAT:
+                        for a in t.children():
+                            flat(a)
+                    else:
+                        parts.append("\0")
+                flat(p_)
+                text = "".join(parts)
+                m_ = _re.search(r"\(\?P<name>(.*?)\)\[", text)
+                if not m_:
+                    return z3.BoolVal(False)
+                alts = set(m_.group(1).strip("()").split("|"))
+                return z3.BoolVal("#" in alts and "\\w+" in alts)
+            return z3.BoolVal(False)
+        c.ensures("a-liquid-tag-line-may-start-with-#-or-a-word-whatever-the-comment-delimiters", post3)
         c.assume_note("str.replace is uninterpreted here; the marker is comment_start_string with every '{' removed, by design (the property's mechanism list)")
         c.replay("code", code=REPLAY_RULES)
 
@@ -401,7 +431,15 @@ def run(m):
         got = Environment(**d).from_string(alt).render(x=1)
     except Exception as e:
         got = f"{type(e).__name__}: {e}"
-    return {"violated": got != want, "observed": {"default": want, "custom": got}}
+    # a liquid tag with an inline comment line, in environments with and without comment delimiters
+    lsrc = "{% liquid\n# note\necho 'a'\n%}"
+    outs = {}
+    for name, kw in (("default", {}), ("comments", dict(template_comments=True)), ("custom-comments", dict(template_comments=True, comment_start_string="/*", comment_end_string="*/"))):
+        try:
+            outs[name] = Environment(**kw).from_string(lsrc).render()
+        except Exception as e:
+            outs[name] = f"{type(e).__name__}"
+    return {"violated": got != want or len(set(outs.values())) != 1, "observed": {"default": want, "custom": got, "liquid-tag": outs}}
 '''
 
 REPLAY_MEMO = r'''
